@@ -514,6 +514,13 @@ func (in *Interp) infix(n *Node, f *Frame) Value {
 // Binary applies a binary operator to two values (exported for the operand-value family of C01).
 func Binary(op string, l, r Value) Value {
 	switch op {
+	case "<", ">", "<=", ">=":
+		if containsFunc(l) || containsFunc(r) {
+			// functions have no documented order (C12 checks that whatever order there is, is coherent)
+			return Err("unsupported: ordering functions")
+		}
+	}
+	switch op {
 	case "==":
 		return Bool(Equal(l, r))
 	case "!=":
@@ -1157,19 +1164,29 @@ func (in *Interp) del(t *Node, f *Frame) Value {
 			}
 		}
 		return Bool(false)
+	case NSlice:
+		// not deletable, but its bounds are evaluated first
+		for _, b := range t.K[1:] {
+			if b != nil {
+				if v := in.ev(b, f); v.IsErr() {
+					return v
+				}
+			}
+		}
+		return Err("delete not supported")
 	case NIndex, NDot:
 		obj := t.K[0]
-		if obj.Kind != NIdent {
-			return Err("delete index on non identifier")
-		}
 		var idx Value
 		if t.Kind == NDot {
 			idx = Str(t.Name)
 		} else {
-			idx = in.ev(t.K[1], f)
+			idx = in.ev(t.K[1], f) // (the index is evaluated before the target is looked at)
 			if idx.IsErr() {
 				return idx
 			}
+		}
+		if obj.Kind != NIdent {
+			return Err("delete index on non identifier")
 		}
 		cur, _, ok := f.lookup(obj.Name)
 		if !ok {
